@@ -559,6 +559,12 @@ func c07forests(probe string) []c07scn {
 			files[r+"/"+sp+"/x.go"] = fmt.Sprintf("package %s\n\ntype I interface{ M() }\n", sp)
 		}
 	}
+	// directories whose paths merely START like a configured nested root (no separator in between): they belong to
+	// alpha's recursion, not to alpha/inner's
+	files["alpha/innerx/x.go"] = "package innerx\n\ntype I interface{ M() }\n"
+	files["alpha/innerx/sub/x.go"] = "package sub\n\ntype I interface{ M() }\n"
+	files["alpha/inner-2/x.go"] = "package inner2\n\ntype I interface{ M() }\n"
+	prefixSiblings := []string{"alpha/innerx", "alpha/innerx/sub", "alpha/inner-2"}
 	lists := [][]string{nil, {"gen$"}, {"tmp$"}, {"gen$", "tmp$"}}
 	for _, rootList := range [][]string{nil, {"ok$"}} {
 		for code := 0; code < 64; code++ {
@@ -604,6 +610,17 @@ func c07forests(probe string) []c07scn {
 							open[fmt.Sprintf("%s|I|R0_I", P(r+"/"+sp))] = true
 						}
 					}
+				}
+			}
+			for _, ps := range prefixSiblings {
+				excluded := false
+				for _, pat := range effOf["alpha"] {
+					if regexp.MustCompile(pat).MatchString(P(ps)) {
+						excluded = true
+					}
+				}
+				if !excluded {
+					exp = append(exp, fmt.Sprintf("%s|I|R0_I", P(ps)))
 				}
 			}
 			root["packages"] = pkgs
